@@ -102,3 +102,12 @@ func init() {
 		Rules:       []ruleFn{ruleR12_1, ruleR12_2, ruleR12_3, ruleR12_4, ruleR16_1, ruleR16_2, ruleR11_4},
 	})
 }
+
+func init() {
+	register(&propertySpec{
+		ID: "C13", NeedsServer: true,
+		Explanation: "decides the server's (option bits, case) dispatch table against the contract (known finding F13: six cells proceed instead of refusing), that classification consults type, visibility and subscription, the client's state machine (SUBSCRIBED only from DUE_TO_*, handler iff old != new, refusal reaches the error handler, reset order), and that the client turns every refusal code into a returned error. NOT decided: exactly one datatype under racing creators (needs the lock to hold and MongoDB's uniqueness); the first state of a subscriber.",
+		Assumptions: []string{"the push-pull lock serialises requests of one key (C12)"},
+		Rules:       []ruleFn{ruleR13_1, ruleR13_2, ruleR13_3, ruleR08_3, ruleR12_4},
+	})
+}
